@@ -19,6 +19,7 @@ structure Closed (P : St → Prop) : Prop where
   reclaim : ∀ st sid, P st → P (st.reclaim sid)
   addPartial : ∀ st sid, P st → (∃ s ∈ st.sessions, s.sid = sid) → P (st.addPartial sid)
   dropPartial : ∀ st sid, P st → P (st.dropPartial sid)
+  promote : ∀ st x due, P st → (∃ s ∈ st.sessions, s.sid = x.2) → P (st.promote x due)
   newSession : ∀ st p, P st → st.lookup p = none → (p.lport, p.proto) ∈ st.eps → P (st.newSession p)
   mapHolders : ∀ st g, P st → HBenign g → P { st with holders := st.holders.map g }
   misc : ∀ st (now timeout maxIdle : Nat) (res dirty : List Nat), P st →
@@ -31,6 +32,25 @@ include c
 
 theorem dropHolders {st : St} (h : P st) (xs : List Holder) : P (st.dropHolders xs) :=
   foldl_inv P St.dropHolder (fun a x ha => c.dropHolder a x ha) xs st h
+
+theorem flushDelayed {st : St} (h : P st) (sid : Nat) : P (st.flushDelayed sid) := by
+  unfold St.flushDelayed
+  split
+  · exact h
+  · rename_i s hs
+    split
+    · exact h
+    · split
+      · exact h
+      · rename_i x hx
+        have hx2 : x.2 = sid := by
+          have := List.find?_some hx
+          simpa using this
+        refine c.promote _ _ _ ?_ ?_
+        · refine c.benign _ _ _ h ?_
+          intro t; exact ⟨rfl, rfl, rfl⟩
+        · obtain ⟨hm, he⟩ := getSess_some hs
+          exact live_updSess sid _ (fun _ => rfl) ⟨s, hm, by rw [hx2]; exact he⟩
 
 theorem retransmit {st : St} (h : P st) (x : Holder) : P (st.retransmit x) := by
   unfold St.retransmit
@@ -46,6 +66,7 @@ theorem retransmit {st : St} (h : P st) (x : Holder) : P (st.retransmit x) := by
           · subst e; simp [hk, HKind.isAlloc]
           · simp [e]
       · apply c.dropHolder
+        apply c.flushDelayed
         refine c.benign _ _ _ h ?_
         intro s; exact ⟨rfl, rfl, rfl⟩
     · exact h
@@ -255,8 +276,41 @@ theorem Closed.step {P : St → Prop} (c : Closed P) {st : St} (h : P st) (e : E
         · dsimp only
           apply c.prepareIo
           apply c.dropHolder
+          apply c.flushDelayed
           refine c.benign _ _ _ (c.getSession h p (Or.inl (by simp [hs]))) ?_
           intro s; exact ⟨rfl, rfl, rfl⟩
+    | ack p bad =>
+      dsimp only
+      split
+      · exact h
+      · rename_i s hs
+        split
+        · exact h
+        · dsimp only
+          apply c.prepareIo
+          apply c.dropHolder
+          apply c.flushDelayed
+          refine c.benign _ _ _ (c.getSession h p (Or.inl (by simp [hs]))) ?_
+          intro s; exact ⟨rfl, rfl, rfl⟩
+    | sendCon p =>
+      dsimp only
+      split
+      · exact h
+      · rename_i s hs
+        obtain ⟨hm, _⟩ := lookup_some hs
+        split
+        · exact h
+        · split
+          · dsimp only
+            refine c.addPartial _ _ ?_ ?_
+            · refine c.benign _ _ _ h ?_
+              intro t; exact ⟨rfl, rfl, rfl⟩
+            · exact live_updSess s.sid _ (fun _ => rfl) ⟨s, hm, rfl⟩
+          · dsimp only
+            refine c.addHolder _ _ _ ?_ ?_
+            · refine c.benign _ _ _ h ?_
+              intro t; exact ⟨rfl, rfl, rfl⟩
+            · exact live_updSess s.sid _ (fun _ => rfl) ⟨s, hm, rfl⟩
     | ping p =>
       dsimp only
       split
@@ -910,6 +964,89 @@ theorem PInv.newSession {st : St} (h : PInv st) (p : Peer) : PInv (st.newSession
 
 /-! ## everything together -/
 
+/-! ### `promote`: a delayed node becomes a queued message (same object, now with a reference) -/
+
+theorem HInv.promote {st : St} (h : HInv st) (x : Nat × Nat) (due : Nat) (hl : ∃ s ∈ st.sessions, s.sid = x.2) :
+    HInv (st.promote x due) := by
+  unfold St.promote
+  split
+  · have := HInv.addHolder (st := { st with holders := st.holders }) h x.2 (.node 0 due) hl
+    have key : HInv { (st.updSess x.2 Sess.reference) with
+        holders := st.holders ++ [⟨st.next, x.2, .node 0 due⟩], ledger := st.ledger ++ [.alloc st.next], next := st.next + 1 } := by
+      simpa [St.addHolder, HKind.isAlloc] using this
+    constructor
+    · intro t ht
+      have := key.ref t ht
+      unfold St.holds at this ⊢
+      simpa [List.countP_append] using this
+    · intro y hy
+      have hy' : y ∈ st.holders ++ [⟨x.1, x.2, .node 0 due⟩] := hy
+      rcases List.mem_append.mp hy' with h1 | h1
+      · exact key.live y (List.mem_append.mpr (Or.inl h1))
+      · simp only [List.mem_singleton] at h1; subst h1
+        exact key.live ⟨st.next, x.2, .node 0 due⟩ (List.mem_append.mpr (Or.inr (by simp)))
+    · intro t ht
+      obtain ⟨s0, hs0, rfl⟩ := mem_updSess.mp ht
+      have := h.fresh s0 hs0
+      show _ < st.next
+      by_cases c : s0.sid = x.2 <;> simp [c, Sess.reference] <;> omega
+  · exact h
+
+theorem SInv.promote {st : St} (h : SInv st) (x : Nat × Nat) (due : Nat) : SInv (st.promote x due) := by
+  unfold St.promote
+  split
+  · exact h.of_shape _ (shapeBenign_if x.2 Sess.reference (fun _ => ⟨rfl, rfl⟩)) rfl rfl rfl (Nat.le_refl _)
+  · exact h
+
+theorem count_map_erase (l : List (Nat × Nat)) (x : Nat × Nat) (hx : x ∈ l) (i : Nat) :
+    ((l.erase x).map (·.1)).count i + (if x.1 = i then 1 else 0) = (l.map (·.1)).count i := by
+  induction l with
+  | nil => simp at hx
+  | cons y t ih =>
+    by_cases e : y = x
+    · subst e; simp [List.count_cons]
+    · have hx' : x ∈ t := by
+        rcases List.mem_cons.mp hx with h1 | h1
+        · exact absurd h1.symm e
+        · exact h1
+      have := ih hx'
+      rw [List.erase_cons_tail (by simpa using e)]
+      simp only [List.map_cons, List.count_cons]
+      omega
+
+theorem LInv.promote {st : St} (h : LInv st) (x : Nat × Nat) (due : Nat) : LInv (st.promote x due) := by
+  unfold St.promote
+  split
+  · rename_i hx
+    obtain ⟨live, hr, hc⟩ := h
+    refine ⟨live, hr, ?_⟩
+    intro i
+    rw [hc i, objects_count, objects_count]
+    have h1 : St.sids { (st.updSess x.2 Sess.reference) with
+        holders := st.holders ++ [⟨x.1, x.2, .node 0 due⟩], partials := st.partials.erase x } = st.sids :=
+      sids_updSess st x.2 _ (fun _ => rfl)
+    have h2 : St.allocHids { (st.updSess x.2 Sess.reference) with
+        holders := st.holders ++ [⟨x.1, x.2, .node 0 due⟩], partials := st.partials.erase x } = st.allocHids ++ [x.1] := by
+      simp [St.allocHids, List.filter_append, HKind.isAlloc]
+    have h3 : St.ctxObjs { (st.updSess x.2 Sess.reference) with
+        holders := st.holders ++ [⟨x.1, x.2, .node 0 due⟩], partials := st.partials.erase x } = st.ctxObjs := rfl
+    have h4 := count_map_erase st.partials x hx i
+    rw [h1, h2, h3]
+    show _ = _ + _ + _ + ((st.partials.erase x).map (·.1)).count i
+    simp only [List.count_append, List.count_cons, List.count_nil, beq_iff_eq]
+    unfold St.partialIds
+    omega
+  · exact h
+
+theorem PInv.promote {st : St} (h : PInv st) (x : Nat × Nat) (due : Nat) : PInv (st.promote x due) := by
+  unfold St.promote
+  split
+  · intro y hy
+    have hy' : y ∈ st.partials.erase x := hy
+    obtain ⟨s, hs, e⟩ := h y (List.mem_of_mem_erase hy')
+    exact live_updSess x.2 _ (fun _ => rfl) ⟨s, hs, e⟩
+  · exact h
+
 structure Inv (st : St) : Prop where
   H : HInv st
   S : SInv st
@@ -934,6 +1071,7 @@ theorem Inv.closed : Closed Inv where
     ⟨h.H.addPartial sid, h.S.same rfl rfl rfl (Nat.le_succ _), h.L.addPartial sid, h.P.addPartial sid hl⟩
   dropPartial st sid h :=
     ⟨h.H.congr rfl rfl rfl, h.S.same rfl rfl rfl (Nat.le_refl _), h.L.dropPartial sid, h.P.dropPartial sid⟩
+  promote st x due h hl := ⟨h.H.promote x due hl, h.S.promote x due, h.L.promote x due, h.P.promote x due⟩
   newSession st p h hl hp := ⟨h.H.newSession p, h.S.newSession h.H p hl hp, h.L.newSession p, h.P.newSession p⟩
   mapHolders st g h hg :=
     ⟨h.H.mapHolders g (fun x => (hg x).1), h.S.same rfl rfl rfl (Nat.le_refl _), h.L.mapHolders g hg, h.P.same rfl rfl⟩
